@@ -267,13 +267,14 @@ Section Obj.
         cbn [fst snd]. unfold clean_present. rewrite Hfresh. reflexivity.
       + (* fixed *)
         destruct (skind sl) eqn:Eknd; try discriminate. cbn [fst snd] in Ec.
-        unfold clean_present in Ec. rewrite alookup_aset_same in Ec. cbn [clean_kind] in Ec.
-        Show. rewrite jvalue_eqb_refl in Ec. unfold bind in Ec.
+        unfold clean_present in Ec. rewrite alookup_aset_same in Ec. rewrite Eknd in Ec. cbn [clean_kind] in Ec.
+        rewrite jvalue_eqb_refl in Ec. unfold bind in Ec.
         destruct (refs_ok c sl vrefs (PJ (JStr v))) as [[] | |] eqn:Er; try discriminate. inv_ok Ec.
         rewrite aset_aset in *. rewrite alookup_aset_same in HK'.
         assert (D = false). { destruct D; auto. destruct (HD eq_refl) as [sl' [bb [E1 [E2 _]]]]. try rewrite Es in E1; inv E1. congruence. }
         subst D. cbn [encode] in HK'. rewrite HK'. cbn [nullish].
-        apply cp_given; auto. rewrite Eknd. cbn [clean_kind]. rewrite jvalue_eqb_refl. reflexivity.
+        rewrite (cp_given sl (JStr v) s (PJ (JStr v)) false);
+          [reflexivity | rewrite Eknd; cbn [clean_kind]; rewrite jvalue_eqb_refl; reflexivity | exact Er].
       + (* the clock *)
         destruct (skind sl) eqn:Eknd; try discriminate. unfold bind in Ec.
         destruct (ts_clean_now (vr_year_pad vr) p c0 (e_now ev)) as [[us txt] | |] eqn:Et; try discriminate.
@@ -283,12 +284,12 @@ Section Obj.
         subst D. cbn [encode] in HK'. rewrite HK'. cbn [nullish].
         rewrite Hpad in Et.
         rewrite (cp_given sl (JStr txt) s (PTime us txt) false).
-        * rewrite orb_false_r. reflexivity.
+        * reflexivity.
         * rewrite Eknd. cbn [clean_kind]. unfold bind. rewrite Hpad. rewrite (ts_clean_now_idem _ _ _ _ _ Et). reflexivity.
         * apply refs_ok_nonref. rewrite Eknd. reflexivity.
       + (* a fresh identifier *)
         destruct (skind sl) eqn:Eknd; try discriminate. cbn [fst snd] in Ec.
-        unfold clean_present in Ec. rewrite alookup_aset_same in Ec.
+        unfold clean_present in Ec. rewrite alookup_aset_same in Ec. rewrite Eknd in Ec.
         destruct (CK (KId prefix v) allow interop (JStr (prefix ++ e_uuid4 ev))) as [[v0 h0] | |] eqn:Eid; try discriminate.
         unfold bind in Ec. destruct (refs_ok c sl vrefs v0) as [[] | |] eqn:Er; try discriminate. inv_ok Ec.
         rewrite aset_aset in *. rewrite alookup_aset_same in HK'.
@@ -297,10 +298,11 @@ Section Obj.
         assert (Ev0 : v0 = PJ (JStr (prefix ++ e_uuid4 ev))).
         { cbn [clean_kind] in Eid. unfold bind in Eid. destruct (validate_id vr (prefix ++ e_uuid4 ev) v (Some prefix) interop); try discriminate. inv_ok Eid. reflexivity. }
         subst v0. cbn [encode] in HK'. rewrite HK'. cbn [nullish].
-        apply cp_given; auto. rewrite Eknd. exact Eid.
+        rewrite (cp_given sl (JStr (prefix ++ e_uuid4 ev)) s (PJ (JStr (prefix ++ e_uuid4 ev))) h0);
+          [reflexivity | rewrite Eknd; exact Eid | exact Er].
       + (* a constant default *)
         destruct (skind sl) eqn:Eknd; try discriminate. destruct j; try discriminate. cbn [fst snd] in Ec.
-        unfold clean_present in Ec. rewrite alookup_aset_same in Ec. cbn [clean_kind clean_bool] in Ec.
+        unfold clean_present in Ec. rewrite alookup_aset_same in Ec. rewrite Eknd in Ec. cbn [clean_kind clean_bool] in Ec.
         unfold bind in Ec. destruct (refs_ok c sl vrefs (PJ (JBool b0))) as [[] | |] eqn:Er; try discriminate. inv_ok Ec.
         rewrite aset_aset in *. rewrite alookup_aset_same in HK'.
         destruct D.
@@ -308,6 +310,7 @@ Section Obj.
           unfold clean_present. rewrite alookup_aset_same. rewrite Eknd. cbn [clean_kind clean_bool]. unfold bind.
           rewrite Er. rewrite aset_aset. reflexivity.
         * cbn [encode] in HK'. rewrite HK'. cbn [nullish].
-          apply cp_given; auto. rewrite Eknd. reflexivity.
+          rewrite (cp_given sl (JBool b0) s (PJ (JBool b0)) false);
+            [reflexivity | rewrite Eknd; reflexivity | exact Er].
   Qed.
 End Obj.
